@@ -581,6 +581,8 @@ func isErrorType(t types.Type) bool {
 	return types.Identical(t, types.Universe.Lookup("error").Type())
 }
 
+var wireDepth int
+
 func (p *Program) extractWire(fn *ssa.Function, idx int) *wireSig {
 	c := p.codec()
 	sig := &wireSig{}
@@ -606,6 +608,37 @@ func (p *Program) extractWire(fn *ssa.Function, idx int) *wireSig {
 			}
 		}
 		if stream == nil {
+			// a wrapper (statistics, logging) around the function that owns the stream: follow the single same-package callee
+			// that takes this function's parameters
+			var inner *ssa.Function
+			n := 0
+			for _, b := range fn.Blocks {
+				for _, in := range b.Instrs {
+					cc, ok := in.(*ssa.Call)
+					if !ok {
+						continue
+					}
+					y := cc.Call.StaticCallee()
+					if y == nil || y == fn || len(y.Blocks) == 0 || fnPkg(y) != fnPkg(fn) || len(cc.Call.Args) < len(fn.Params) {
+						continue
+					}
+					passes := len(fn.Params) > 0
+					for i, prm := range fn.Params {
+						if strip(cc.Call.Args[i]) != ssa.Value(prm) {
+							passes = false
+						}
+					}
+					if passes {
+						inner = y
+						n++
+					}
+				}
+			}
+			if n == 1 && wireDepth < 2 {
+				wireDepth++
+				defer func() { wireDepth-- }()
+				return p.extractWire(inner, idx)
+			}
 			sig.Problems = append(sig.Problems, "no local stream in "+fnName(fn))
 			return sig
 		}
@@ -780,7 +813,8 @@ func (p *Program) extractWire(fn *ssa.Function, idx int) *wireSig {
 				// success exit: last result is not a definitely-non-nil error
 				if n := len(x.Results); n > 0 && isErrorType(x.Results[n-1].Type()) {
 					ev := retOperand(x, n-1)
-					if definitelyError(ev) {
+					// a named result kept in a cell (a deferred closure reads it): what this return stored into it
+					if definitelyError(ev) || definitelyError(sameBlockDef(x.Results[n-1])) {
 						return
 					}
 				}
@@ -1010,4 +1044,97 @@ func funcValue(v ssa.Value) *ssa.Function {
 		return f
 	}
 	return nil
+}
+
+// streamOwner: fn itself when it creates the codec stream it works on; when fn is a wrapper (statistics, logging) that hands its
+// parameters to a single same-package function, that function (depth <= 2).
+func (p *Program) streamOwner(fn *ssa.Function) *ssa.Function {
+	c := p.codec()
+	for depth := 0; fn != nil && depth < 2; depth++ {
+		owns := false
+		for _, b := range fn.Blocks {
+			for _, in := range b.Instrs {
+				if cc, ok := in.(*ssa.Call); ok {
+					if n := namedOf(cc.Type()); n != nil && (n == c.WriterT || n == c.ReaderT) {
+						if cal := cc.Call.StaticCallee(); cal != nil && cal.Signature.Recv() == nil {
+							owns = true
+						}
+					}
+				}
+			}
+		}
+		if owns {
+			return fn
+		}
+		var inner *ssa.Function
+		var innerCall *ssa.Call
+		n := 0
+		for _, b := range fn.Blocks {
+			for _, in := range b.Instrs {
+				cc, ok := in.(*ssa.Call)
+				if !ok {
+					continue
+				}
+				y := cc.Call.StaticCallee()
+				if y == nil || y == fn || len(y.Blocks) == 0 || fnPkg(y) != fnPkg(fn) || len(cc.Call.Args) < len(fn.Params) || len(fn.Params) == 0 {
+					continue
+				}
+				passes := true
+				for i, prm := range fn.Params {
+					if strip(cc.Call.Args[i]) != ssa.Value(prm) {
+						passes = false
+					}
+				}
+				if passes {
+					inner = y
+					innerCall = cc
+					n++
+				}
+			}
+		}
+		if n != 1 {
+			return fn
+		}
+		// ... and returns its results unchanged and in order (directly, or through named results assigned from the call)
+		for _, b := range fn.Blocks {
+			ret, isR := b.Instrs[len(b.Instrs)-1].(*ssa.Return)
+			if !isR {
+				continue
+			}
+			for i, res := range ret.Results {
+				v := sameBlockDef(res)
+				if len(ret.Results) == 1 && strip(v) == ssa.Value(innerCall) {
+					continue
+				}
+				if !derivesFromExtract(v, innerCall, i) && !cellAssignedFromExtract(res, innerCall, i) {
+					return fn
+				}
+			}
+		}
+		fn = inner
+	}
+	return fn
+}
+
+// cellAssignedFromExtract: v is a load of a local cell (a named result kept in memory because a deferred closure reads it) whose
+// every store is result #idx of call.
+func cellAssignedFromExtract(v ssa.Value, call *ssa.Call, idx int) bool {
+	u, ok := v.(*ssa.UnOp)
+	if !ok || u.Op != token.MUL {
+		return false
+	}
+	al, ok := u.X.(*ssa.Alloc)
+	if !ok || al.Referrers() == nil {
+		return false
+	}
+	n := 0
+	for _, ref := range *al.Referrers() {
+		if st, isSt := ref.(*ssa.Store); isSt && st.Addr == ssa.Value(al) {
+			n++
+			if !derivesFromExtract(st.Val, call, idx) {
+				return false
+			}
+		}
+	}
+	return n > 0
 }
